@@ -509,9 +509,12 @@ def write_evidence(prop, tier, seed, world_cls, m, wall, n_viol, known_lines, ex
 def confirm_known(prop, repo):
     """Replay every listed finding.  Returns (known_lines, violations)."""
     lines, viols = [], []
-    for e in load_known(prop):
+    entries = load_known(prop)
+    from concurrent.futures import ThreadPoolExecutor
+    with ThreadPoolExecutor(max_workers=8) as pool:          # each replay is a fresh interpreter of its own
+        replayed = list(pool.map(lambda e_: fresh_replay(os.path.join(HERE, e_['replay']), repo), entries))
+    for e, (doc, res) in zip(entries, replayed):
         rp = os.path.join(HERE, e['replay'])
-        doc, res = fresh_replay(rp, repo)
         if res.get('harness_error'):
             raise RuntimeError('known-finding replay %s: %s' % (e['key'], res['harness_error']))
         v = res.get('violation')
